@@ -109,6 +109,8 @@ MonInit(p) ==
    last |-> [ci |-> 0, viaRel |-> FALSE, late |-> FALSE, age |-> 0],   \* (= NoLast) the latest chord activation (to classify a repeat)
    sp |-> IF p.ver = 1 THEN 0 ELSE MaxT(p) + p.minidle + 2,     \* v2: ticks since the last press input (capped)
    phys |-> {},       \* keys physically down (from the inputs)
+   inq |-> 0,         \* (reserved: input backlog allowance for the release deadline; not counted - the random
+                      \*  schedules keep bursts within one tick short instead)
    lay |-> 0, lheld |-> FALSE,
    gapIn |-> 0, lastIdle |-> TRUE, cbRun |-> 2, quiet |-> p.red + 1, err |-> ""]
 NoLast == [ci |-> 0, viaRel |-> FALSE, late |-> FALSE, age |-> 0]
@@ -125,7 +127,9 @@ MonIn(m, r) ==
   ELSE
     LET p == m.p
         c == r.c
-        m0 == [m EXCEPT !.gapIn = 1, !.phys = IF r.e = "d" THEN @ \cup {r.c} ELSE @ \ {r.c}]
+        \* (v2: any queued event makes chord.rs look at the pending presses again on the next tick)
+        m0 == [m EXCEPT !.gapIn = 1, !.phys = IF r.e = "d" THEN @ \cup {r.c} ELSE @ \ {r.c},
+                        !.arr = @ \/ (m.p.ver = 2 /\ m.gst = "open")]
         G == SeqToSet(m.g)
     IN
     IF p.lkey # 0 /\ c = p.lkey
@@ -242,8 +246,9 @@ Individual(m, kc, o) ==
            j == FirstIdx(after, LAMBDA e : e.c = kc)
            after1 == IF j = 0 THEN after
                      ELSE [after EXCEPT ![j].hid = IF @ = 0 THEN m.pend[i].hid ELSE @, ![j].dup = @ \/ m.pend[i].dup]
-       IN \* (presses that a hidden re-activation may have consumed are left out of the order claim)
-          PopExp([m EXCEPT !.pend = [k \in DOMAIN before |-> IF before[k].hid = 0 THEN [before[k] EXCEPT !.sk = TRUE] ELSE before[k]]
+       IN \* (presses that a hidden re-activation may have consumed, or that may have been dropped, are left out of
+          \*  the order claim)
+          PopExp([m EXCEPT !.pend = [k \in DOMAIN before |-> IF before[k].hid = 0 /\ ~before[k].dup THEN [before[k] EXCEPT !.sk = TRUE] ELSE before[k]]
                                     \o after1])
 
 ReleaseChord(m, ci) ==
@@ -326,8 +331,8 @@ MonTick(m, out, idle, cb) ==
         \* the deadline counts consecutive silent ticks: while kanata still works through queued events (one per tick,
         \* with rapid-event pauses) outputs keep coming and the release is merely queued behind them
         acts1 == [i \in DOMAIN m3.acts |-> [m3.acts[i] EXCEPT !.due = IF relCond(m3.acts[i]) /\ out = <<>>
-                                                                       THEN OMin(@ + 1, p.slack + 1) ELSE 0]]
-        stuck == {i \in DOMAIN acts1 : acts1[i].due > p.slack}
+                                                                       THEN OMin(@ + 1, p.slack + 21) ELSE 0]]
+        stuck == {i \in DOMAIN acts1 : acts1[i].due > p.slack + 2 * m.inq}
         \* presses left when kanata has settled, per key: every `hid` mark excuses one press of the key silently (a chord
         \* re-activation under a held output key is invisible), every `dup` mark names the known site of a dropped press
         cnt(k) == Cardinality({i \in DOMAIN m3.pend : m3.pend[i].c = k})
@@ -353,6 +358,7 @@ MonTick(m, out, idle, cb) ==
                        !.sp = OMin(@ + 1, SpCap(p)),
                        !.last = IF settledNow THEN NoLast ELSE [@ EXCEPT !.age = OMin(@ + 1, 2)],
                        !.expDef = IF m4.exp = <<>> THEN FALSE ELSE @,
+                       !.inq = IF idle THEN 0 ELSE @,
                        !.gapIn = 0, !.lastIdle = idle, !.cbRun = IF p.ver = 1 \/ cb THEN OMin(@ + 1, 2) ELSE 0,
                        !.quiet = IF out = <<>> THEN OMin(m4.quiet + 1, p.red + 1) ELSE 0]
 
